@@ -9,10 +9,10 @@ From NngV Require Import Core.AioModel.
 Import ListNotations.
 
 Record fw := mkFw { f_stop : bool; f_abort : bool; f_expiring : bool; f_expire_ok : bool; f_sleep : bool;
-                    f_cancel : bool; f_on_eq : bool; f_result : N }.
+                    f_cancel : bool; f_on_eq : bool; f_result : N; f_done : bool }.
 
 Definition fw_of (s : aio) : fw :=
-  mkFw (a_stop s) (a_abort s) (a_expiring s) (a_expire_ok s) (a_sleep s) (a_cancel s) (a_on_eq s) (a_result s).
+  mkFw (a_stop s) (a_abort s) (a_expiring s) (a_expire_ok s) (a_sleep s) (a_cancel s) (a_on_eq s) (a_result s) (a_done s).
 
 Inductive tkind :=
 | TStartOk (has_cancel has_deadline : bool) | TStartStopped | TStartAborted | TStartTimeout
@@ -21,39 +21,41 @@ Inductive tkind :=
 | TExpireMark | TExpireSkip.
 
 (* None = a record of this kind cannot follow this state *)
-Definition fw_step (k : tkind) (f : fw) : option fw :=
+Definition fw_step (fdone : bool) (k : tkind) (f : fw) : option fw :=
   let eok := if f_sleep f then f_expire_ok f else false in     (* nni_aio_start: if (!a_sleep) a_expire_ok = false *)
   match k with
   | TStartOk c dl =>
       if f_stop f || f_abort f then None else
-      Some (mkFw false false (f_expiring f) eok (f_sleep f) c (dl && c) A_OK)
+      Some (mkFw false false (f_expiring f) eok (f_sleep f) c (dl && c) A_OK false)
   | TStartStopped =>
       (* a_stop, or the whole expire queue is stopping (library shutdown) *)
-      Some (mkFw true (f_abort f) (f_expiring f) false false (f_cancel f) (f_on_eq f) A_STOPPED)
+      Some (mkFw true (f_abort f) (f_expiring f) false false (f_cancel f) (f_on_eq f) A_STOPPED true)
   | TStartAborted =>
       if f_stop f || negb (f_abort f) then None else
-      Some (mkFw false false (f_expiring f) false false (f_cancel f) (f_on_eq f) (f_result f))
+      Some (mkFw false false (f_expiring f) false false (f_cancel f) (f_on_eq f) (f_result f) true)
   | TStartTimeout =>
       if f_stop f || f_abort f then None else
-      Some (mkFw false false (f_expiring f) false false (f_cancel f) (f_on_eq f) (if eok then A_OK else A_TIMEDOUT))
+      Some (mkFw false false (f_expiring f) false false (f_cancel f) (f_on_eq f) (if eok then A_OK else A_TIMEDOUT) true)
   | TFinish rv =>
-      Some (mkFw (f_stop f) (f_abort f) (f_expiring f) (f_expire_ok f) false false false rv)
+      Some (mkFw (f_stop f) (f_abort f) (f_expiring f) (f_expire_ok f) false false false rv true)
   | TAbort rv =>
-      if f_cancel f then Some (mkFw (f_stop f) (f_abort f) (f_expiring f) (f_expire_ok f) (f_sleep f) false false (f_result f))
-      else Some (mkFw (f_stop f) true (f_expiring f) (f_expire_ok f) (f_sleep f) false false rv)
+      if f_cancel f then Some (mkFw (f_stop f) (f_abort f) (f_expiring f) (f_expire_ok f) (f_sleep f) false false (f_result f) (f_done f))
+      else if fdone && f_done f
+      then Some (mkFw (f_stop f) (f_abort f) (f_expiring f) (f_expire_ok f) (f_sleep f) false false (f_result f) (f_done f))
+      else Some (mkFw (f_stop f) true (f_expiring f) (f_expire_ok f) (f_sleep f) false false rv (f_done f))
   | TStop | TFini =>
       if f_expiring f then None else
-      Some (mkFw true (f_abort f) false (f_expire_ok f) (f_sleep f) false false (f_result f))
+      Some (mkFw true (f_abort f) false (f_expire_ok f) (f_sleep f) false false (f_result f) (f_done f))
   | TClose =>
-      Some (mkFw true (f_abort f) (f_expiring f) (f_expire_ok f) (f_sleep f) false false (f_result f))
+      Some (mkFw true (f_abort f) (f_expiring f) (f_expire_ok f) (f_sleep f) false false (f_result f) (f_done f))
   | TExpireMark =>
       (* the scan: a due aio is unlinked from the expire list and held *)
       if f_on_eq f && negb (f_expiring f)
-      then Some (mkFw (f_stop f) (f_abort f) true (f_expire_ok f) (f_sleep f) (f_cancel f) false (f_result f))
+      then Some (mkFw (f_stop f) (f_abort f) true (f_expire_ok f) (f_sleep f) (f_cancel f) false (f_result f) (f_done f))
       else None
   | TExpireSkip =>
       (* its turn in the batch: no longer due (repaired loop) *)
-      if f_expiring f then Some (mkFw (f_stop f) (f_abort f) false (f_expire_ok f) (f_sleep f) (f_cancel f) (f_on_eq f) (f_result f))
+      if f_expiring f then Some (mkFw (f_stop f) (f_abort f) false (f_expire_ok f) (f_sleep f) (f_cancel f) (f_on_eq f) (f_result f) (f_done f))
       else None
   | TExpire rv =>
       (* its turn in the batch: unlinked, cancel function taken; rv = ESTOPPED when the whole queue
@@ -64,23 +66,23 @@ Definition fw_step (k : tkind) (f : fw) : option fw :=
       let st := if stopping then true else f_stop f in
       let eok := if stopping then f_expire_ok f else false in
       if f_sleep f
-      then Some (mkFw st (f_abort f) true eok false false false rv)
-      else Some (mkFw st (f_abort f) true eok (f_sleep f) false false (f_result f))
+      then Some (mkFw st (f_abort f) true eok false false false rv true)
+      else Some (mkFw st (f_abort f) true eok (f_sleep f) false false (f_result f) (f_done f))
   | TExpireDone =>
-      Some (mkFw (f_stop f) (f_abort f) false (f_expire_ok f) (f_sleep f) (f_cancel f) (f_on_eq f) (f_result f))
+      Some (mkFw (f_stop f) (f_abort f) false (f_expire_ok f) (f_sleep f) (f_cancel f) (f_on_eq f) (f_result f) (f_done f))
   | TSleepCancel rv =>
-      if f_sleep f then Some (mkFw (f_stop f) (f_abort f) (f_expiring f) (f_expire_ok f) false (f_cancel f) false (f_result f))
+      if f_sleep f then Some (mkFw (f_stop f) (f_abort f) (f_expiring f) (f_expire_ok f) false (f_cancel f) false (f_result f) (f_done f))
       else None
   | TReset =>
-      Some (mkFw (f_stop f) false (f_expiring f) false false (f_cancel f) (f_on_eq f) A_OK)
+      Some (mkFw (f_stop f) false (f_expiring f) false false (f_cancel f) (f_on_eq f) A_OK false)
   | TSleepSetup =>
       (* nni_sleep_aio after nni_aio_reset: a_sleep = true; a_expire_ok set from the timeouts (either value) *)
-      Some (mkFw (f_stop f) (f_abort f) (f_expiring f) (f_expire_ok f) true (f_cancel f) (f_on_eq f) (f_result f))
+      Some (mkFw (f_stop f) (f_abort f) (f_expiring f) (f_expire_ok f) true (f_cancel f) (f_on_eq f) (f_result f) (f_done f))
   end.
 
 Ltac simp_f := cbn [a_stop a_abort a_expiring a_expire_ok a_sleep a_cancel a_on_eq a_expire a_result
                     t_busy t_prep t_queued t_running p_owns p_sleep threads upd_threads fw_of
-                    f_stop f_abort f_expiring f_expire_ok f_sleep f_cancel f_on_eq f_result] in *.
+                    f_stop f_abort f_expiring f_expire_ok f_sleep f_cancel f_on_eq f_result f_done a_done] in *.
 
 Lemma fw_spawn s k : fw_of (spawn s k) = fw_of s.
 Proof. destruct k; reflexivity. Qed.
@@ -89,12 +91,13 @@ Proof. reflexivity. Qed.
 
 Section Fixed.
 Variable fixed : bool.
+Variable fdone : bool.
 
 (* nni_aio_start: the four outcomes are the four record kinds *)
 Lemma astep_fw_start s zero dl sleep eok s' :
   a_sleep s = sleep -> (sleep = true -> a_expire_ok s = eok) ->   (* nni_sleep_aio has set them (TSleepSetup) *)
-  astep fixed s (LStart zero dl sleep eok) = Some s' ->
-  exists k, fw_step k (fw_of s) = Some (fw_of s') /\
+  astep fixed fdone s (LStart zero dl sleep eok) = Some s' ->
+  exists k, fw_step fdone k (fw_of s) = Some (fw_of s') /\
     k = (if a_stop s then TStartStopped else if a_abort s then TStartAborted else if zero then TStartTimeout
          else TStartOk true (match dl with Some _ => true | None => false end)).
 Proof.
@@ -115,27 +118,27 @@ Proof.
         -- destruct dl; reflexivity.
 Qed.
 
-Lemma astep_fw_abort s rv s' : astep fixed s (LAbort rv) = Some s' -> fw_step (TAbort rv) (fw_of s) = Some (fw_of s').
+Lemma astep_fw_abort s rv s' : astep fixed fdone s (LAbort rv) = Some s' -> fw_step fdone (TAbort rv) (fw_of s) = Some (fw_of s').
 Proof.
   cbn [astep]. destruct (rv =? 0)%N; [discriminate|]. cbn [fw_step]. simp_f.
-  destruct (a_cancel s); intros H; inversion H; subst; unfold spawn; reflexivity.
+  destruct (a_cancel s); [|destruct (fdone && a_done s)]; intros H; inversion H; subst; unfold spawn; reflexivity.
 Qed.
 
-Lemma astep_fw_stop s s' : astep fixed s LStop = Some s' -> fw_step TStop (fw_of s) = Some (fw_of s').
+Lemma astep_fw_stop s s' : astep fixed fdone s LStop = Some s' -> fw_step fdone TStop (fw_of s) = Some (fw_of s').
 Proof.
   cbn [astep fw_step]. simp_f. destruct (a_expiring s); [discriminate|]. intros H; inversion H; subst.
   unfold spawn. destruct (a_cancel s); reflexivity.
 Qed.
 
-Lemma astep_fw_close s s' : astep fixed s LClose = Some s' -> fw_step TClose (fw_of s) = Some (fw_of s').
+Lemma astep_fw_close s s' : astep fixed fdone s LClose = Some s' -> fw_step fdone TClose (fw_of s) = Some (fw_of s').
 Proof. cbn [astep fw_step]. intros H; inversion H; subst. unfold spawn. destruct (a_cancel s); reflexivity. Qed.
 
-Lemma astep_fw_reset s s' : astep fixed s LReset = Some s' -> fw_step TReset (fw_of s) = Some (fw_of s').
+Lemma astep_fw_reset s s' : astep fixed fdone s LReset = Some s' -> fw_step fdone TReset (fw_of s) = Some (fw_of s').
 Proof. cbn [astep fw_step]. destruct (outstanding s); [discriminate|]. intros H; inversion H; subst. reflexivity. Qed.
 
 (* the expire loop's scan *)
-Lemma astep_fw_expire_mark s now s' : astep fixed s (LExpire now) = Some s' ->
-  fw_step TExpireMark (fw_of s) = Some (fw_of s').
+Lemma astep_fw_expire_mark s now s' : astep fixed fdone s (LExpire now) = Some s' ->
+  fw_step fdone TExpireMark (fw_of s) = Some (fw_of s').
 Proof.
   intros H. cbn [astep] in H. cbn [fw_step]. simp_f. destruct (a_on_eq s && negb (a_expiring s)); [|discriminate].
   destruct (negb match a_expire s with Some e => (e <? now)%N | None => false end); [discriminate|].
@@ -145,21 +148,21 @@ Qed.
 (* continuations *)
 Lemma run_pact_fw s a s1 more : run_pact fixed s a = Some (s1, more) ->
   match a with
-  | PFinish rv => fw_step (TFinish rv) (fw_of s) = Some (fw_of s1)
-  | PExpireDone => fw_step TExpireDone (fw_of s) = Some (fw_of s1)
+  | PFinish rv => fw_step fdone (TFinish rv) (fw_of s) = Some (fw_of s1)
+  | PExpireDone => fw_step fdone TExpireDone (fw_of s) = Some (fw_of s1)
   | PCallCancel rv =>
-      if p_owns s && p_sleep s then a_sleep s = true -> fw_step (TSleepCancel rv) (fw_of s) = Some (fw_of s1)
+      if p_owns s && p_sleep s then a_sleep s = true -> fw_step fdone (TSleepCancel rv) (fw_of s) = Some (fw_of s1)
       else fw_of s1 = fw_of s        (* an ordinary provider's cancel function touches no framework field *)
   | PExpireProc now =>
       (* the aio's turn in the batch: TExpireSkip, or TExpire and - unless a cancel function is
          called with the lock dropped - TExpireDone in the same critical section *)
       a_expiring s = true ->
       let due := match a_expire s with Some e => (e <? now)%N | None => false end in
-      if fixed && negb due then fw_step TExpireSkip (fw_of s) = Some (fw_of s1)
+      if fixed && negb due then fw_step fdone TExpireSkip (fw_of s) = Some (fw_of s1)
       else
         let rv := if a_expire_ok s then A_OK else A_TIMEDOUT in
-        exists f1, fw_step (TExpire rv) (fw_of s) = Some f1 /\
-          (if a_sleep s || negb (a_cancel s) then fw_step TExpireDone f1 = Some (fw_of s1) else f1 = fw_of s1)
+        exists f1, fw_step fdone (TExpire rv) (fw_of s) = Some f1 /\
+          (if a_sleep s || negb (a_cancel s) then fw_step fdone TExpireDone f1 = Some (fw_of s1) else f1 = fw_of s1)
   | PDispatch | PStopWait => fw_of s1 = fw_of s
   end.
 Proof.
